@@ -119,6 +119,11 @@ void set_readonly(const Buf &b) { mprotect(b.data_lo, b.data_hi - b.data_lo, PRO
 void set_readwrite(const Buf &b) { mprotect(b.data_lo, b.data_hi - b.data_lo, PROT_READ | PROT_WRITE); }
 void quarantine(const Buf &b) { mprotect(b.data_lo, b.data_hi - b.data_lo, PROT_NONE); }
 
+void retire(const Buf &b) {
+	mprotect(b.data_lo, b.data_hi - b.data_lo, PROT_NONE);
+	madvise(b.data_lo, b.data_hi - b.data_lo, MADV_DONTNEED);
+}
+
 void release_all() {
 	if (!g_base || g_used == 0) { g_bufs.clear(); return; }
 	size_t n = g_used + PAGE;
